@@ -222,6 +222,13 @@ def check_file(case, ctx):
                       rtol=0, atol=0.0500001, detail=x['name'])
             ctx.close('C05.file/roundtrip:coefficients', list(b.a_low) + list(b.a_high), x['a_low'] + x['a_high'],
                       rtol=5.1e-9, atol=0, detail=x['name'])
+        # the same path written again with another collection reads back as that collection (no memory of the first)
+        second = [build_nasa(dict(x, name='Z%d' % k_)) for k_, x in enumerate(descs[::-1][:3])]
+        write_thermdat(second, filename=fn, write_date=False)
+        again = read_thermdat(fn, format='list')
+        if [b.name for b in again] != [s_.name for s_ in second]:
+            ctx.fail('C05.file/rewritten-file-read-back', 'second collection %r written to the same path, read %r' % (
+                [s_.name for s_ in second], [b.name for b in again][:8]))
     finally:
         shutil.rmtree(d, ignore_errors=True)
 
